@@ -14,9 +14,71 @@ import (
 	"verif/internal/prng"
 )
 
+// usesExtensions: each use of a grouping may carry extension statements of its own, which
+// are added to the nodes it copies in. The grouping's node has nb extension statements
+// already (nb = 0..11, so that the slice behind them has spare room for some nb and none for
+// others); every instance must show those plus its own, and the grouping itself only those.
+func usesExtensions(j *job.Job, s *job.Sink, c int64) {
+	r := prng.For(j.Seed, "C06", "uses-extensions", c)
+	nb := int(c/8) % 12
+	nu := 2 + r.Intn(3)
+	var b strings.Builder
+	b.WriteString("module x { namespace \"urn:x\"; prefix x; extension e1 { argument v; }\n  grouping g { leaf l { type string;")
+	var base []string
+	for k := 0; k < nb; k++ {
+		fmt.Fprintf(&b, " x:e1 \"b%d\";", k)
+		base = append(base, fmt.Sprintf("b%d", k))
+	}
+	b.WriteString(" } container k { leaf deep { type string; } } }\n")
+	for u := 0; u < nu; u++ {
+		fmt.Fprintf(&b, "  container c%d { uses g { x:e1 \"from-c%d\"; } }\n", u, u)
+	}
+	b.WriteString("}\n")
+	cs := map[string]string{"x.yang": b.String()}
+	s.Count("uses_extension_cases", 1)
+	ms := yang.NewModules()
+	if err := ms.Parse(b.String(), "x.yang"); err != nil {
+		s.Violation(c, j.CaseID(c), "C06.independence", "unexpected-error", err.Error(), cs, nil)
+		return
+	}
+	if errs := ms.Process(); len(errs) > 0 {
+		s.Violation(c, j.CaseID(c), "C06.independence", "unexpected-error", errs[0].Error(), cs, nil)
+		return
+	}
+	args := func(e *yang.Entry) string {
+		var xs []string
+		for _, x := range e.Exts {
+			xs = append(xs, x.Argument)
+		}
+		return strings.Join(xs, " ")
+	}
+	root := yang.ToEntry(ms.Modules["x"])
+	for u := 0; u < nu; u++ {
+		want := strings.Join(append(append([]string{}, base...), fmt.Sprintf("from-c%d", u)), " ")
+		for _, leaf := range []*yang.Entry{root.Dir[fmt.Sprintf("c%d", u)].Dir["l"], root.Dir[fmt.Sprintf("c%d", u)].Dir["k"]} {
+			w := want
+			if leaf.Name == "k" {
+				w = fmt.Sprintf("from-c%d", u)
+			}
+			if got := args(leaf); got != w {
+				s.Violation(c, j.CaseID(c), "C06.independence", "instances-share-extensions", fmt.Sprintf("c%d/%s carries the extension arguments [%s], its grouping and its uses say [%s]", u, leaf.Name, got, w), cs, map[string]any{"extensions_on_the_grouping_node": nb})
+				return
+			}
+		}
+	}
+	if g := ms.Modules["x"].Grouping[0]; true {
+		if got := args(yang.ToEntry(g).Dir["l"]); got != strings.Join(base, " ") {
+			s.Violation(c, j.CaseID(c), "C06.independence", "grouping-changed-by-a-use", fmt.Sprintf("the grouping's own leaf carries [%s] after it was used, it defines [%s]", got, strings.Join(base, " ")), cs, nil)
+		}
+	}
+}
+
 // Run generates cases.
 func Run(j *job.Job, s *job.Sink) {
 	for c := j.Start; c < j.Start+j.Count; c++ {
+		if c%8 == 0 {
+			usesExtensions(j, s, c)
+		}
 		r := prng.For(j.Seed, "C06", "independence", c)
 		nd := 1 + r.Intn(5)
 		var defs string
